@@ -5,7 +5,8 @@
    typed by the definition it was created with, slices and pointers by element name).
    clean st o excludes exactly the situations of the listed findings: a key that is not a symbol
    (nonsymbol-key), an instance value created under another definition than its name has now / derefSet
-   between two definitions (instance-type-by-name), a target without definition (late-adoption), and
+   between two definitions (instance-type-by-name), an array whose (nested) first element has a type without TypeCache
+   (typeless-elem-array), a target without definition (late-adoption), and
    re-binding an existing variable.  Each exclusion is shown necessary by a refuted statement below. *)
 From Coq Require Import List ZArith Bool.
 Import ListNotations.
@@ -82,7 +83,7 @@ Proof.
   exists [Declare 0 [(0, int64_t)]; Construct 0 0 [(KSym 0, VInt 1)]; Declare 0 [(0, string_t)];
           Declare 1 [(0, TEStruct 0)]; Construct 1 1 [(KSym 0, VInst 0)]].
   split; [|vm_compute; reflexivity].
-  intros o H. repeat (destruct H as [<-|H]; [exact I|]). destruct H.
+  intros o H. repeat (destruct H as [<-|H]; [simpl; auto|]). destruct H.
 Qed.
 Print Assumptions C17_stale_instance_refuted.
 
@@ -116,6 +117,18 @@ Proof.
   split; vm_compute; reflexivity.
 Qed.
 Print Assumptions C17_untyped_array_panics_refuted.
+
+(* since b43fa74 an array whose first element is a plain hash has the generic type "[]", which the
+   empty-slice escape of TypeCheckField accepts for every slice field *)
+Theorem C17_typeless_elem_array_refuted : exists h,
+  (forall o, In o h -> match o with Write _ _ k _ => key_clean k = true | _ => True end) /\
+  invb (run init_state h) = false.
+Proof.
+  exists [Declare 0 [(0, TESlice int64_t)]; Construct 0 0 []; Write RHset 0 (KSym 0) (VArr [VHash])].
+  split; [|vm_compute; reflexivity].
+  intros o H. repeat (destruct H as [<-|H]; [simpl; auto|]). destruct H.
+Qed.
+Print Assumptions C17_typeless_elem_array_refuted.
 
 (* ---------- non-vacuity: a clean history with redeclaration in between, every route, nil, the empty
    slice, arrays, pointers, another struct's instance; rejected and accepted writes ---------- *)
